@@ -16,7 +16,7 @@ CHECKS = {
     "C01": ("model_checking", K_TECH,
             "BFS over histories of encrypt/decrypt (long-lived and per-request sessions of two processes), clock ticks across the precision / revoke-check / expiry thresholds, out-of-band revocation, restart and session close, for several cache configurations; on every transition decrypt results are compared with the original payload and in every state every catalogued record is decrypted by a fresh SDK factory and by an independent reference decryptor over the metastore snapshot. Fixed mini-runs add 1 MiB / 5 MiB payloads and factories configured with different AWS KMS regions (both plugins).", "6/C01"),
     "C03": ("model_checking", K_TECH + "; AEAD/KMS/allocator call monitors",
-            "The same history space with monitors on every AEAD, KMS and secret-allocation call: one fresh data key per encrypt used once and wrapped once, no (key, nonce) repeated in a history (deterministic logged random source), payload only under data keys, data keys only under the partition's IK, IKs only under the SK, SK only to the KMS, and a byte-window leak scan of records, rows and log lines.", "6/C03"),
+            "The same history space with monitors on every AEAD, KMS and secret-allocation call: one fresh data key per encrypt used once and wrapped once, no (key, nonce) repeated in a history (deterministic logged random source), payload only under data keys, data keys only under the partition's IK, IKs only under the SK, SK only to the KMS, and a byte-window leak scan of records, rows and log lines. The log lines of every operation - decrypts and failing operations of the fault space included - are scanned for plaintext key / payload bytes (raw, hex, base64, decimal).", "6/C03"),
     "C04": ("model_checking", K_TECH + "; deviation-bounded fault enumeration on expiry timelines",
             "The same history space; on every encrypt transition the named IK's age, the parent SK of every IK row written, and the time since the parent SK expired are computed from row stamps and the virtual clock, independently of the SDK's predicates; plus timelines of a long-lived session around the key lifetime with every placement of up to 2-3 failing metastore reads / KMS unwraps (while writes are accepted no record is handed out under an expired key).", "6/C04"),
     "C05": ("model_checking", K_TECH + "; deviation-bounded fault enumeration on revocation timelines",
